@@ -86,6 +86,18 @@ func VerifC17Concurrent() {
 		vstub.Assert(ok, "C17 every acknowledged entry is in the live log")
 	}
 	vstub.Assert(b.OpLog().Len() == w, "C17 exactly one entry per call")
+	// ... and in the VIEW (the materialised index), without any further write or load
+	view := b.Index().Get("").([]ipfslog.Entry)
+	vstub.Assert(len(view) == w, "C17 the view holds exactly one entry per acknowledged call")
+	for k := 0; k < w; k++ {
+		seen := false
+		for _, e := range view {
+			if e.GetHash().Equals(entries[k].GetHash()) {
+				seen = true
+			}
+		}
+		vstub.Assert(seen, "C17 every acknowledged entry is visible in the view once all calls returned")
+	}
 	_ = b.Close()
 
 	r := reopen(env)
@@ -155,6 +167,7 @@ func VerifC17WritersAndReplication() {
 	}
 	vstub.Assert(inLog(b, remote), "C17 the replicated entry is merged while local writes go on")
 	vstub.Assert(b.OpLog().Len() == w+1, "C17 exactly one entry per call plus the replicated one")
+	vstub.Assert(len(b.Index().Get("").([]ipfslog.Entry)) == w+1, "C17 the view holds every acknowledged entry and the replicated one")
 	_ = b.Close()
 	env2 := vstubodb.NewEnv("a", 1, "db", blocks, nil)
 	env2.Cache = env.Cache
